@@ -6,6 +6,7 @@ CONSTANTS
   Cap = 2
   Weaken = "compareOwnRoundOnly"
   GapFix = FALSE
+  CertRounds = {1, 2}
   Direct = FALSE
   Timeouts = FALSE
 PROPERTY HighestMonotone
